@@ -351,18 +351,24 @@ def run_b3(chk):
     from gnpy.tools.worker_utils import designed_network
     rng = random.Random(chk.seed)
     jobs = []
-    eq = equipment()
     nbatches = 3 if chk.tier == 'quick' else 15
 
-    def fresh_net():
-        net = load_network(EX / 'meshTopologyExampleV2.json', eq)
-        return designed_network(eq, net)[0]
-    jobs.append(record_planning('meshV2:shipped-services', fresh_net(), eq,
+    def fresh_net(netf='meshTopologyExampleV2.json', eqf='eqpt_config.json'):
+        e = equipment(eqf)
+        net = load_network(EX / netf, e)
+        return designed_network(e, net)[0], e
+    net, eq = fresh_net()
+    jobs.append(record_planning('meshV2:shipped-services', net, eq,
                                 load_json(EX / 'meshTopologyExampleV2_services.json'), chk))
     for b in range(nbatches):
-        net = fresh_net()
+        net, eq = fresh_net()
         data, kinds = random_services(net, rng, 14, f'b{b}-')
         jobs.append(record_planning(f'meshV2:seeded-batch-{b}', net, eq, loadable(data, kinds, eq, chk), chk))
+    # multiband network (C+L OMS next to C-only OMS): unusable gaps inside the axis
+    for b in range(1 if chk.tier == 'quick' else 6):
+        net, eq = fresh_net('multiband_example_network.json', 'eqpt_config_multiband.json')
+        data, kinds = random_services(net, rng, 10, f'm{b}-')
+        jobs.append(record_planning(f'multiband:seeded-batch-{b}', net, eq, loadable(data, kinds, eq, chk), chk))
     traces_ok = judge_traces(jobs, chk)
     chk.cov['b3_traces'] = len(jobs)
     chk.cov['b3_requests'] = sum(len(t['ev']) for t in jobs)
